@@ -22,12 +22,17 @@ CONSTANTS MinN, MaxN,  \* model checking: all labelled graphs on MinN..MaxN atom
           PatPool,     \* patterns offered to Match in the model
           Kinds,       \* which queries the model explores: subset of {"bfs","ring","local","match","defs"}
           DeclLimit,   \* Emb uses the declarative definition while n^pn <= DeclLimit
+          Handles,     \* model checking: handles on the one graph (object, held view of it); each may cache for itself
           MaxEdits,    \* model checking: in-place edits of the graph between queries (histories on one object)
           Deviations   \* named wrong behaviours (non-vacuity)
 VARIABLES g,        \* the graph [n |-> Nat, el |-> Seq(STRING), bonds |-> Seq([a, b, o2])] AS IT IS NOW (edits update it)
           adj,      \* cache: atom -> set of neighbours (= AdjOf(g))
           pat,      \* the pattern object of a history (trace validation), edited in place as well
-          memo,     \* implementation: the graph as converted by an earlier query (only deviations ever reuse it)
+          open,     \* the handles through which the graph is reached: "obj", held Conformer views of an ensemble ..
+                    \* ALL handles (and the live bond list) denote the one graph g: an edit through any of them
+                    \* is an edit of g, a query through any of them is decided on g
+          memo,     \* implementation: handle -> the graph as converted / tabulated by an earlier query through
+                    \* that handle (only deviations ever reuse it)
           edits,    \* model checking: number of edits so far
           cur,      \* running query [kind, s, d]
           tgt,      \* atom -> distance REQUIRED for the running traversal
@@ -40,9 +45,9 @@ VARIABLES g,        \* the graph [n |-> Nat, el |-> Seq(STRING), bonds |-> Seq([
           visited,  \* implementation: the visited set
           res,      \* result of the finished query
           last      \* observation: latest action (never in the fingerprint)
-static == <<g, adj, pat, memo, edits>>
-vars == <<g, adj, pat, memo, edits, cur, tgt, seen, lastk, viol, phase, cursor, queue, visited, res, last>>
-sv   == <<g, adj, pat, memo, edits, cur, tgt, seen, lastk, viol, phase, cursor, queue, visited, res>>
+static == <<g, adj, pat, open, memo, edits>>
+vars == <<g, adj, pat, open, memo, edits, cur, tgt, seen, lastk, viol, phase, cursor, queue, visited, res, last>>
+sv   == <<g, adj, pat, open, memo, edits, cur, tgt, seen, lastk, viol, phase, cursor, queue, visited, res>>
 
 (* ======================= Part 1: definitions ============================== *)
 Nodes(G)        == 1..G.n
@@ -101,6 +106,9 @@ Injective(P, m)           == \A i, j \in 1..P.n : i # j => m[i] # m[j]
 RespectsElements(P, G, m) == \A i \in 1..P.n : ElemOK(P.el[i], G.el[m[i]])
 BondedToBonded(P, PA, GA, m)       == \A i, j \in 1..P.n : j \in PA[i] => m[j] \in GA[m[i]]
 NonBondedToNonBonded(P, PA, GA, m) == \A i, j \in 1..P.n : (i # j /\ j \notin PA[i]) => m[j] \notin GA[m[i]]
+(* What decides a match is ALL here: elements (Unknown = wildcard in the pattern) and adjacency.  Atom type, *)
+(* geometry, label, stereo descriptor, formal charge / spin, attrib of pattern or target atoms are not part    *)
+(* of g or P: by the property they cannot change the set of embeddings (the harness varies them freely).       *)
 IsEmbedding(P, PA, G, GA, m) ==
   /\ DOMAIN m = 1..P.n /\ \A i \in 1..P.n : m[i] \in Nodes(G)
   /\ Injective(P, m) /\ RespectsElements(P, G, m)
@@ -129,7 +137,7 @@ Emb(P, PA, G, GA) == IF Pow(G.n, P.n) <= DeclLimit THEN EmbDecl(P, PA, G, GA) EL
 
 (* ======================= Part 2: what the property demands ================ *)
 NoGraph  == [n |-> 0, el |-> <<>>, bonds |-> <<>>]
-NoQuery  == [kind |-> "none", s |-> 0, d |-> 0]
+NoQuery  == [kind |-> "none", s |-> 0, d |-> 0, h |-> "none"]
 NoCursor == [a |-> 0, k |-> 0]
 ToSet(s) == {s[i] : i \in 1..Len(s)}
 
@@ -141,14 +149,15 @@ CheckYield(T, sn, lk, a, k) ==
 
 IdleVars == /\ cur = NoQuery /\ tgt = NoMap /\ seen = {} /\ lastk = 0 /\ viol = {} /\ phase = "idle"
             /\ cursor = NoCursor /\ queue = <<>> /\ visited = {} /\ res = "none"
-InitWith(G) == /\ g = G /\ adj = AdjOf(G) /\ pat = NoGraph /\ memo = NoGraph /\ edits = 0 /\ IdleVars /\ last = [act |-> "init"]
+NoMemo == [h \in Handles |-> NoGraph]
+InitWith(G) == /\ g = G /\ adj = AdjOf(G) /\ pat = NoGraph /\ open = {"obj"} /\ memo = NoMemo /\ edits = 0 /\ IdleVars /\ last = [act |-> "init"]
 BackToIdle == /\ cur' = NoQuery /\ tgt' = NoMap /\ seen' = {} /\ lastk' = 0 /\ viol' = {} /\ phase' = "idle"
               /\ cursor' = NoCursor /\ queue' = <<>> /\ visited' = {} /\ res' = "none"
 ImplIdle == UNCHANGED <<cursor, queue, visited>>
 
 (* guards are written `X = TRUE` so that TLC evaluates them as values (a bounded quantifier that is *)
 (* a conjunct of an action is unfolded on the Java stack, one frame per element)                   *)
-AbsLoad(G) == /\ Simple(G) = TRUE /\ g' = G /\ adj' = AdjOf(G) /\ pat' = NoGraph /\ UNCHANGED <<memo, edits>>
+AbsLoad(G) == /\ Simple(G) = TRUE /\ g' = G /\ adj' = AdjOf(G) /\ pat' = NoGraph /\ open' = {"obj"} /\ UNCHANGED <<memo, edits>>
               /\ BackToIdle /\ last' = [act |-> "graph"]
 
 (* ----- histories on one object: in-place edits between queries.  Every query after an edit is       *)
@@ -168,6 +177,7 @@ DelAtom(G, a)        == LET ren(x) == IF x > a THEN x - 1 ELSE x
 EditOK(G, op) ==
   CASE op.op = "relabel" -> op.a \in Nodes(G)
     [] op.op = "label"   -> op.a \in Nodes(G)                                \* atom.label = ..: not part of the graph
+    [] op.op = "attr"    -> op.a \in Nodes(G)                                \* atype / geom / stereo / charge / isotope: idem
     [] op.op = "rebond"  -> op.i \in 1..NB(G)
     [] op.op = "connect" -> op.a \in Nodes(G) /\ op.b \in Nodes(G) /\ op.a # op.b /\ op.b \notin NbrsOf(G, op.a)
     [] op.op = "delbond" -> op.i \in 1..NB(G)
@@ -177,26 +187,32 @@ EditOK(G, op) ==
 Edited(G, op) ==
   CASE op.op = "relabel" -> Relabel(G, op.a, op.e)
     [] op.op = "label"   -> G
+    [] op.op = "attr"    -> G
     [] op.op = "rebond"  -> Rebond(G, op.i, op.o2)
     [] op.op = "connect" -> AddEdge(G, op.a, op.b, op.o2)
     [] op.op = "delbond" -> DelEdge(G, op.i)
     [] op.op = "addatom" -> AddAtom(G, op.e)
     [] op.op = "delatom" -> DelAtom(G, op.a)
-(* H = the graph the object shows through atoms / bonds after the edit: it must be the edited graph *)
+(* a further handle on the same graph is taken and held (ensemble[i] -> Conformer view) *)
+AbsOpen(h) ==
+  /\ phase = "idle" /\ h \notin open /\ open' = open \cup {h}
+  /\ UNCHANGED <<g, adj, pat, memo, edits>> /\ BackToIdle /\ last' = [act |-> "open", h |-> h]
+(* H = the graph the object shows through atoms / bonds after the edit: it must be the edited graph. *)
+(* op.via = the handle the edit went through ("list" = the live bond list itself; "" = in place)      *)
 AbsEdit(op, H) ==
-  /\ phase = "idle" /\ EditOK(g, op) = TRUE
+  /\ phase = "idle" /\ EditOK(g, op) = TRUE /\ op.via \in open \cup {"list", ""}
   /\ (Simple(H) /\ SameConstitution(Edited(g, op), H)) = TRUE
-  /\ g' = H /\ adj' = AdjOf(H) /\ UNCHANGED <<pat, memo, edits>> /\ BackToIdle /\ last' = [act |-> "edit", op |-> op.op]
+  /\ g' = H /\ adj' = AdjOf(H) /\ UNCHANGED <<pat, open, memo, edits>> /\ BackToIdle /\ last' = [act |-> "edit", op |-> op.op]
 AbsPattern(P) ==
   /\ phase = "idle" /\ (Simple(P) /\ P.n >= 1) = TRUE
-  /\ pat' = P /\ UNCHANGED <<g, adj, memo, edits>> /\ BackToIdle /\ last' = [act |-> "pattern"]
+  /\ pat' = P /\ UNCHANGED <<g, adj, open, memo, edits>> /\ BackToIdle /\ last' = [act |-> "pattern"]
 AbsPatEdit(op) ==                                                           \* relabel / label / rebond of the pattern
-  /\ phase = "idle" /\ op.op \in {"relabel", "label", "rebond"} /\ EditOK(pat, op) = TRUE
-  /\ pat' = Edited(pat, op) /\ UNCHANGED <<g, adj, memo, edits>> /\ BackToIdle /\ last' = [act |-> "pedit", op |-> op.op]
+  /\ phase = "idle" /\ op.op \in {"relabel", "label", "attr", "rebond"} /\ EditOK(pat, op) = TRUE
+  /\ pat' = Edited(pat, op) /\ UNCHANGED <<g, adj, open, memo, edits>> /\ BackToIdle /\ last' = [act |-> "pedit", op |-> op.op]
 
-AbsBegin(s, d) ==
-  /\ phase = "idle" /\ s \in Nodes(g) /\ (d = 0 \/ d \in adj[s])
-  /\ cur' = [kind |-> "bfs", s |-> s, d |-> d] /\ tgt' = Target(adj, s, d)
+AbsBegin(s, d, h) ==
+  /\ phase = "idle" /\ h \in open /\ s \in Nodes(g) /\ (d = 0 \/ d \in adj[s])
+  /\ cur' = [kind |-> "bfs", s |-> s, d |-> d, h |-> h] /\ tgt' = Target(adj, s, d)
   /\ seen' = {} /\ lastk' = 0 /\ phase' = "run"
   /\ UNCHANGED <<static, viol, res>> /\ ImplIdle /\ last' = [act |-> "begin", s |-> s, d |-> d]
 AbsYield(a, k) ==
@@ -206,16 +222,16 @@ AbsYield(a, k) ==
 AbsEnd ==
   /\ phase = "run" /\ seen = DOMAIN tgt                                  \* none missed
   /\ BackToIdle /\ UNCHANGED <<static>> /\ last' = [act |-> "end"]
-AbsRing(i, r) ==
-  /\ phase = "idle" /\ i \in 1..NB(g)
+AbsRing(i, r, h) ==
+  /\ phase = "idle" /\ h \in open /\ i \in 1..NB(g)
   /\ r = ~Bridge(adj, g.bonds[i].a, g.bonds[i].b)
   /\ UNCHANGED sv /\ last' = [act |-> "ring", b |-> i, res |-> r]
 LocalOK(a, nbrs, bonds, v2) ==
   /\ ToSet(nbrs) = adj[a] /\ Len(nbrs) = Cardinality(adj[a])
   /\ ToSet(bonds) = BondsWith(g, a) /\ Len(bonds) = Cardinality(BondsWith(g, a))
   /\ v2 = Val2(g, a)
-AbsLocal(a, nbrs, bonds, v2) ==                                          \* sequences as yielded, in any order
-  /\ phase = "idle" /\ a \in Nodes(g)
+AbsLocal(a, nbrs, bonds, v2, h) ==                                       \* sequences as yielded, in any order
+  /\ phase = "idle" /\ h \in open /\ a \in Nodes(g)
   /\ LocalOK(a, nbrs, bonds, v2) = TRUE
   /\ UNCHANGED sv /\ last' = [act |-> "local", a |-> a]
 (* mode "exact": the returned maps are exactly the induced embeddings.                          *)
@@ -228,12 +244,12 @@ MatchOK(P, maps, mode, must) ==
        IF mode = "exact" THEN ToSet(maps) = Emb(P, PA, g, adj)
        ELSE /\ \A i \in 1..Len(maps) : IsEmbedding(P, PA, g, adj, maps[i])
             /\ (must # <<>> /\ IsEmbedding(P, PA, g, adj, must)) => must \in ToSet(maps)
-AbsMatch(P, maps, mode, must) ==
-  /\ phase = "idle" /\ MatchOK(P, maps, mode, must) = TRUE
+AbsMatch(P, maps, mode, must, h) ==
+  /\ phase = "idle" /\ h \in open /\ MatchOK(P, maps, mode, must) = TRUE
   /\ UNCHANGED sv /\ last' = [act |-> "match", mode |-> mode]
 
-AbsMatchP(pel, maps, mode) ==                                  \* match against the pattern object of the history
-  /\ phase = "idle" /\ pat.n >= 1 /\ pel = pat.el             \* the pattern object shows the edited elements
+AbsMatchP(pel, maps, mode, h) ==                               \* match against the pattern object of the history
+  /\ phase = "idle" /\ h \in open /\ pat.n >= 1 /\ pel = pat.el             \* the pattern object shows the edited elements
   /\ MatchOK(pat, maps, mode, <<>>) = TRUE
   /\ UNCHANGED sv /\ last' = [act |-> "matchp", mode |-> mode]
 
@@ -250,11 +266,14 @@ Init == \E G \in UNION {GraphsOn(n, Elems) : n \in MinN..MaxN} : InitWith(G)
 
 Connections(s, d) == IF Dev("RingThroughBond") THEN adj[s] ELSE adj[s] \ {d}
 (* yield_bfsd(start, direction) up to its first yield; kind "ring" = is_bond_in_ring(bond s-d) *)
-Begin(kind, s, d) ==
+(* the graph a query through handle h works on *)
+HGraph(h) == IF Dev("PerHandleCache") /\ memo[h] # NoGraph THEN memo[h]            \* table dropped only by edits through h
+             ELSE IF Dev("StaleAdjacency") /\ memo[h].n = g.n THEN memo[h] ELSE g
+Begin(kind, s, d, h) ==
   /\ phase = "idle" /\ kind \in Kinds \cap {"bfs", "ring"} /\ s \in Nodes(g)
   /\ IF kind = "ring" THEN d \in adj[s] ELSE d = 0 \/ d \in adj[s]
-  /\ cur' = [kind |-> kind, s |-> s, d |-> d] /\ tgt' = Target(adj, s, d)
-  /\ memo' = (IF Dev("StaleAdjacency") /\ memo.n = g.n THEN memo ELSE g)    \* the adjacency this traversal walks on
+  /\ cur' = [kind |-> kind, s |-> s, d |-> d, h |-> h] /\ tgt' = Target(adj, s, d)
+  /\ memo' = [memo EXCEPT ![h] = HGraph(h)]                                  \* the adjacency this traversal walks on
   /\ visited' = (IF Dev("StartNotVisited") THEN {} ELSE {s})
                   \cup (IF d = 0 \/ Dev("DirectionNotExcluded") THEN {} ELSE {d})
   /\ cursor' = NoCursor
@@ -265,9 +284,9 @@ Begin(kind, s, d) ==
           /\ viol' = CheckYield(tgt', {}, 0, d, k0)
           /\ IF kind = "ring" /\ d \in Connections(s, d) THEN phase' = "done" /\ res' = TRUE
                                                          ELSE phase' = "run" /\ res' = "none"
-  /\ UNCHANGED <<g, adj, pat, edits>> /\ last' = [act |-> "begin", kind |-> kind, s |-> s, d |-> d]
+  /\ UNCHANGED <<g, adj, pat, open, edits>> /\ last' = [act |-> "begin", kind |-> kind, s |-> s, d |-> d]
 
-WalkAdj(a) == IF Dev("StaleAdjacency") THEN NbrsOf(memo, a) ELSE adj[a]
+WalkAdj(a) == IF Dev("StaleAdjacency") \/ Dev("PerHandleCache") THEN NbrsOf(memo[cur.h], a) ELSE adj[a]
 Unvisited == IF cursor.a = 0 THEN {} ELSE WalkAdj(cursor.a) \ visited
 (* queue.pop(): the deque is filled with appendleft, so pop() takes the OLDEST entry *)
 Pop ==
@@ -300,20 +319,22 @@ Scan(G, a, i) == IF i > NB(G) THEN [nbrs |-> <<>>, bonds |-> <<>>, v2 |-> 0]
                         THEN [nbrs |-> <<IF b.a = a THEN b.b ELSE b.a>> \o r.nbrs, bonds |-> <<i>> \o r.bonds,
                               v2 |-> (IF Dev("ValenceCountsBonds") THEN 2 ELSE b.o2) + r.v2]
                         ELSE r
-Local(a) ==
+Local(a, h) ==
   /\ phase = "idle" /\ "local" \in Kinds /\ a \in Nodes(g)
-  /\ cur' = [kind |-> "local", s |-> a, d |-> 0] /\ res' = Scan(g, a, 1) /\ phase' = "done"
-  /\ UNCHANGED <<static, tgt, seen, lastk, viol, cursor, queue, visited>> /\ last' = [act |-> "local", a |-> a]
-Match(P) ==
+  /\ cur' = [kind |-> "local", s |-> a, d |-> 0, h |-> h] /\ res' = Scan(HGraph(h), a, 1) /\ phase' = "done"
+  /\ memo' = [memo EXCEPT ![h] = HGraph(h)]
+  /\ UNCHANGED <<g, adj, pat, open, edits, tgt, seen, lastk, viol, cursor, queue, visited>> /\ last' = [act |-> "local", a |-> a]
+Match(P, h) ==
   /\ phase = "idle" /\ "match" \in Kinds
   (* to_nxgraph(): with the deviation the converted graph is reused while atoms and bonds look the same, *)
   (* so that elements edited in place are stale                                                           *)
-  /\ LET GM == IF Dev("StaleAttributes") /\ memo.n = g.n /\ {Ends(memo, i) : i \in 1..NB(memo)} = {Ends(g, i) : i \in 1..NB(g)}
-                 THEN memo ELSE g IN
-     /\ memo' = GM
+  /\ LET M  == memo[h]
+         GM == IF Dev("StaleAttributes") /\ M.n = g.n /\ {Ends(M, i) : i \in 1..NB(M)} = {Ends(g, i) : i \in 1..NB(g)}
+                 THEN M ELSE g IN
+     /\ memo' = [memo EXCEPT ![h] = GM]
      /\ res' = EmbRec(P, AdjOf(P), GM, AdjOf(GM))
-  /\ cur' = [kind |-> "match", s |-> P, d |-> 0] /\ phase' = "done"
-  /\ UNCHANGED <<g, adj, pat, edits, tgt, seen, lastk, viol, cursor, queue, visited>> /\ last' = [act |-> "match"]
+  /\ cur' = [kind |-> "match", s |-> P, d |-> 0, h |-> h] /\ phase' = "done"
+  /\ UNCHANGED <<g, adj, pat, open, edits, tgt, seen, lastk, viol, cursor, queue, visited>> /\ last' = [act |-> "match"]
 
 DefsHold ==
   /\ adj = AdjOf(g) /\ Simple(g)
@@ -321,19 +342,23 @@ DefsHold ==
   /\ \A s \in Nodes(g) : \A d \in adj[s] : Bridge(adj, s, d) = BridgeDecl(adj, s, d)
 Defs ==
   /\ phase = "idle" /\ "defs" \in Kinds
-  /\ cur' = [kind |-> "defs", s |-> 0, d |-> 0] /\ res' = DefsHold /\ phase' = "done"
+  /\ cur' = [kind |-> "defs", s |-> 0, d |-> 0, h |-> "none"] /\ res' = DefsHold /\ phase' = "done"
   /\ UNCHANGED <<static, tgt, seen, lastk, viol, cursor, queue, visited>> /\ last' = [act |-> "defs"]
 (* an in-place edit between two queries on the same object *)
-EditTo(G) ==
+(* h = the handle the edit goes through: with the deviation only THAT handle drops its table *)
+EditTo(G, h) ==
   /\ edits < MaxEdits /\ phase \in {"idle", "done"}
-  /\ g' = G /\ adj' = AdjOf(G) /\ edits' = edits + 1 /\ UNCHANGED <<pat, memo>> /\ BackToIdle /\ last' = [act |-> "edit"]
+  /\ g' = G /\ adj' = AdjOf(G) /\ edits' = edits + 1
+  /\ memo' = IF Dev("PerHandleCache") THEN [memo EXCEPT ![h] = NoGraph] ELSE memo
+  /\ UNCHANGED <<pat, open>> /\ BackToIdle /\ last' = [act |-> "edit"]
 BondAt(a, b) == CHOOSE i \in 1..NB(g) : Ends(g, i) = {a, b}
-DoEdit == \/ \E a \in Nodes(g), e \in Elems : e # g.el[a] /\ EditTo(Relabel(g, a, e))
-          \/ \E a, b \in Nodes(g) : a < b /\ EditTo(IF b \in adj[a] THEN DelEdge(g, BondAt(a, b)) ELSE AddEdge(g, a, b, 2))
-DoBegin == \E kind \in {"bfs", "ring"}, s \in Nodes(g), d \in 0..g.n : Begin(kind, s, d)
+DoEdit == \/ \E a \in Nodes(g), e \in Elems, h \in Handles : e # g.el[a] /\ EditTo(Relabel(g, a, e), h)
+          \/ \E a, b \in Nodes(g), h \in Handles :
+                a < b /\ EditTo(IF b \in adj[a] THEN DelEdge(g, BondAt(a, b)) ELSE AddEdge(g, a, b, 2), h)
+DoBegin == \E kind \in {"bfs", "ring"}, s \in Nodes(g), d \in 0..g.n, h \in Handles : Begin(kind, s, d, h)
 DoYield == \E v \in Nodes(g) : Yield(v)
-DoLocal == \E a \in Nodes(g) : Local(a)
-DoMatch == \E P \in PatPool : Match(P)
+DoLocal == \E a \in Nodes(g), h \in Handles : Local(a, h)
+DoMatch == \E P \in PatPool, h \in Handles : Match(P, h)
 Next == DoBegin \/ Pop \/ DoYield \/ End \/ DoLocal \/ DoMatch \/ Defs \/ DoEdit
 Spec == Init /\ [][Next]_vars
 
